@@ -10,10 +10,13 @@ import (
 	"errors"
 	"fmt"
 	"io"
+	"os"
+	"path/filepath"
 	"strconv"
 	"time"
 
 	"github.com/postalsys/muti-metroo/internal/agent"
+	"github.com/postalsys/muti-metroo/internal/crypto"
 	"github.com/postalsys/muti-metroo/internal/health"
 	"github.com/postalsys/muti-metroo/internal/protocol"
 	"github.com/postalsys/muti-metroo/internal/shell"
@@ -32,6 +35,10 @@ import (
 //	       shmsg     Agent.forwardShellClientData with a non-STDIN shell message (RESIZE-type byte + n bytes)
 //	       ctrlreq   Agent.SendControlRequestWithData to a direct peer with n data bytes
 //	       ctrlresp  Agent.sendControlResponse with n data bytes (the encoder clips)
+//	       shopen    Agent.OpenShellStream to the (direct) peer with an n-byte command argument; the STREAM_OPEN is
+//	                 acknowledged through the real stream manager, then the sealed META message goes out
+//	       fupmeta   Agent.UploadFile of a 1-byte file with an n-byte remote path (metadata, then content)
+//	       fdownmeta Agent.DownloadFile with an n-byte remote path (metadata request)
 //	    -> ok big=<frames on the wire with payload > MaxPayloadSize> parse=ok|bad
 //
 //	stall <n> <ms>   receive path with back-pressure: the real exit readLoop produces the frames of an n-byte
@@ -148,6 +155,79 @@ func c07bRun(line string) string {
 			e.a.SendControlRequestWithData(ctx, e.peer, protocol.ControlTypeRPC, data)
 		case "ctrlresp":
 			agent.C07SendControlResponse(e.a, e.peer, sid, protocol.ControlTypeRPC, true, data)
+		case "shopen", "fupmeta", "fdownmeta":
+			// the far end acknowledges the STREAM_OPEN as soon as it appears on the wire, so the real client
+			// function goes on to seal and send its metadata message
+			stop := make(chan struct{})
+			go func() {
+				for i := 0; i < 4000; i++ {
+					select {
+					case <-stop:
+						return
+					default:
+					}
+					raw := e.sink.peek()
+					for len(raw) >= protocol.HeaderSize {
+						l := int(binary.BigEndian.Uint32(raw[2:6]))
+						if len(raw) < protocol.HeaderSize+l {
+							break
+						}
+						if raw[0] == protocol.FrameStreamOpen {
+							if so, err := protocol.DecodeStreamOpen(raw[protocol.HeaderSize : protocol.HeaderSize+l]); err == nil {
+								_, rpub, err := crypto.GenerateEphemeralKeypair()
+								must(err)
+								agent.C07StreamMgr(e.a).HandleStreamOpenAck(so.RequestID, nil, 0, rpub)
+								return
+							}
+						}
+						raw = raw[protocol.HeaderSize+l:]
+					}
+					time.Sleep(500 * time.Microsecond)
+				}
+			}()
+			ctx, cancel := context.WithTimeout(context.Background(), 300*time.Millisecond)
+			big := string(bytes.Repeat([]byte("a"), n))
+			fin := make(chan struct{})
+			go func() {
+				defer close(fin)
+				switch f[1] {
+				case "shopen":
+					sess, err := e.a.OpenShellStream(ctx, e.peer, &shell.ShellMeta{Command: "echo", Args: []string{big}}, false)
+					if err == nil && sess != nil {
+						sess.Close()
+					}
+				case "fupmeta":
+					lp := filepath.Join(e.dir, "up.bin")
+					must(os.WriteFile(lp, []byte("x"), 0o600))
+					e.a.UploadFile(ctx, e.peer, lp, "/tmp/"+big, health.TransferOptions{}, nil)
+					os.Remove(lp)
+				case "fdownmeta":
+					e.a.DownloadFile(ctx, e.peer, "/tmp/"+big, filepath.Join(e.dir, "down.bin"), health.TransferOptions{}, nil)
+				}
+			}()
+			select {
+			case <-fin:
+			case <-time.After(450 * time.Millisecond):
+				// the client is waiting for the far end's answer: end the stream under it
+				for _, st := range agent.C07StreamMgr(e.a).GetAllStreams() {
+					agent.C07StreamMgr(e.a).RemoveStream(st.ID)
+				}
+				select {
+				case <-fin:
+				case <-time.After(3 * time.Second):
+				}
+			}
+			cancel()
+			close(stop)
+			time.Sleep(5 * time.Millisecond)
+			// not vacuous: a metadata message that fits must have been sent
+			if n < protocol.MaxPayloadSize/2 {
+				_, _, lens := c07bWire(e.sink.peek())
+				if len(lens) < 2 {
+					e.sink.take()
+					return "ok big=0 parse=ok no-metadata-frame-seen"
+				}
+			}
 		default:
 			return "bad-op"
 		}
@@ -258,6 +338,11 @@ func c07bGen(w *bufio.Writer, seed int64, tier string) {
 		}
 	}
 	msgSizes := []int{0, 10, mp - 200, mp - 41, mp - 30, mp - 29, mp - 28, mp - 13, mp - 12, mp - 11, mp, mp + 1, 20000, 65536, 200000}
+	for _, k := range []string{"shopen", "fupmeta", "fdownmeta"} { // real client entry points; metadata message of ~n bytes
+		for _, n := range []int{10, mp - 300, mp - 120, mp - 60, mp - 29, mp, 20000, 70000} {
+			fmt.Fprintf(w, "msg %s %d\n", k, n)
+		}
+	}
 	for _, k := range []string{"shmsg", "ctrlreq", "ctrlresp"} {
 		for _, n := range msgSizes {
 			fmt.Fprintf(w, "msg %s %d\n", k, n)
